@@ -38,13 +38,13 @@ def random_histories(ctx, n, length):
     return cases
 
 
-def bulk_histories():
+def bulk_histories(heavy=True):
     """Objects whose attribute index fills most of one B-tree leaf (capacity 371 records at the 4 KiB node size), then a few
     deletions that leave the leaf more than half full, then further insertions: the occupancy at which deferred (lazy)
     deletion really defers, and at which inserts are refused for lack of room."""
     cases = []
     # more attribute data than the 64 KiB direct block of the dense attribute heap holds
-    for n, cls in ((330, "s200"), (100, "s700")):
+    for n, cls in (((330, "s200"), (100, "s700")) if heavy else ()):
         cases.append({"cfg": {"obj": "dataset", "sb": 2, "pre": 0, "style": 0}, "ops": [{"op": "put", "n": "h%d" % i, "v": cls} for i in range(n)]})
     for k, (n, d, more) in enumerate([(186, 1, 0), (200, 5, 3), (300, 2, 0), (371, 1, 2), (371, 40, 45), (380, 3, 0)]):
         ops = [{"op": "put", "n": "n%d" % i, "v": ["i32", "f64", "s7", "i8", "ai3"][i % 5]} for i in range(n)]
